@@ -39,7 +39,8 @@ theorem exec_starts_fresh (fuel ti : Nat) (ctx : Env) (a b : ES) (h : SameBut a 
     cases List.find? (fun kv => !identOk kv.fst) (g.update ctx) with
     | some v => simp [xerr, throw, throwThe, MonadExceptOf.throw, EStateM.throw, SameBut, h1, h2, h3, h4]
     | none =>
-      cases List.find? (fun kv => (List.lookup kv.fst b.cs.tpls[ti]!.exported).isSome) (g.update ctx) with
+      generalize List.find? _ (g.update ctx) = clash
+      cases clash with
       | some v => simp [xerr, throw, throwThe, MonadExceptOf.throw, EStateM.throw, SameBut, h1, h2, h3, h4]
       | none =>
         simp only [EStateM.bind, EStateM.get, modify, modifyGet, MonadStateOf.modifyGet, EStateM.modifyGet, tryCatch, tryCatchThe,
@@ -94,7 +95,8 @@ theorem exec_leaves_no_state_behind (fuel ti : Nat) (ctx : Env) (σ : ES) :
     | some _ => simp [xerr, throw, throwThe, MonadExceptOf.throw, EStateM.throw, finalState]
     | none =>
       simp only []
-      cases List.find? (fun kv => (List.lookup kv.fst σ.cs.tpls[ti]!.exported).isSome) (Env.update g ctx) with
+      generalize List.find? _ (Env.update g ctx) = clash
+      cases clash with
       | some _ => simp [xerr, throw, throwThe, MonadExceptOf.throw, EStateM.throw, finalState]
       | none =>
         simp only [modify, modifyGet, MonadStateOf.modifyGet, EStateM.modifyGet]
